@@ -212,7 +212,7 @@ impl Engine for HrEngine {
             // ---------------------------------------------------------------- C05: an asset first loaded DURING a pass (known finding F-C05d)
             6 => {
                 let n = if tier == Tier::Thorough { 60 } else { 24 };
-                match (idx / 8) % 4 { 0 => l.push(format!("newdep {n}")), 1 => l.push(format!("rewire {n}")), 2 => l.push("cross 2".to_string()), _ => l.push("order 8".to_string()) }
+                match (idx / 8) % 4 { 0 => l.push(format!("newdep {n}")), 1 => l.push(format!("rewire {n}")), 2 => l.push("cross 2".to_string()), _ => l.push("order 12".to_string()) }
             }
             // ---------------------------------------------------------------- C05: convergence over random DAGs
             _ => {
@@ -527,6 +527,9 @@ fn order_probe(trials: usize, rec: &mut CaseRec) {
         wx.op(&format!("src.put {} {} {} 0", hexs("n"), hexs("s"), hexs("5")));
         wx.op(&format!("load S0 {}", hexs("a")));
         let Some(tx) = wx.src.sender() else { break };
+        // `Select::ready` picks among ready channels with a per-thread generator that starts from a fixed seed: vary how often
+        // this reloader thread has selected before the decisive moment, so that the trials do not all take the same branch
+        for j in 0..(t % 8) { let _ = tx.send(assets_manager::source::OwnedDirEntry::File(format!("warm{j}").into(), "s".into())); wx.sync(); }
         crate::exec_world::stall(true);
         let _ = tx.send(assets_manager::source::OwnedDirEntry::File("noise".into(), "s".into()));   // wakes the thread with "events ready"
         std::thread::sleep(std::time::Duration::from_millis(3));
